@@ -76,6 +76,9 @@ unsafe impl Sync for TokenInfo {}
 
 impl<'a> Tokinizer<'a> {
     pub fn new(config: &'a SmartCalcConfig, session: &'a Session) -> Tokinizer<'a> {
+        #[cfg(smartcalc_verif)]
+        crate::verif::push(crate::verif::RuleEvent::Scan(session.current_line().len()));
+
         Tokinizer {
             column: 0,
             iter: session.current_line().chars().collect(),
@@ -165,9 +168,14 @@ impl<'a> Tokinizer<'a> {
     pub fn add_token_location(&mut self, start: usize, end: usize, token_type: Option<TokenType>, text: String) -> bool {
         for item in self.token_infos.iter() {
             if (item.start <= start && item.end > start) || (item.start < end && item.end >= end) {
+                #[cfg(smartcalc_verif)]
+                crate::verif::push(crate::verif::RuleEvent::Claim(start, end, false));
                 return false
             }
         }
+
+        #[cfg(smartcalc_verif)]
+        crate::verif::push(crate::verif::RuleEvent::Claim(start, end, true));
 
         self.token_infos.push(Rc::new(TokenInfo {
             start,
